@@ -55,6 +55,12 @@ def clean_stems():
     return ["a", "ba", "cba", "ab", "a_b", "b", "x1", "a-1"]
 
 
+def dot_family(sfx):
+    """dot-delimited prefix families, with and without the format suffix"""
+    fam = ["x", "x.y", "x.y.z", f"x.{sfx}.y"]
+    return fam + [f"{s}.{sfx}" for s in fam]
+
+
 def prop_ids(sfx):
     """the domain the property quantifies over: names that are suffixes/prefixes of one another,
     with and without the store's format suffix"""
@@ -84,14 +90,21 @@ def gz_ids(sfx):
 
 def id_class(sfx, uid):
     """narrow description of why an identifier is unusual ('' = ordinary)"""
+    pre = ""
+    if "/" in uid:
+        pre = "has-dir"
+        uid = uid.rsplit("/", 1)[-1]
+        if not uid:
+            return pre
+    tag0 = [pre] if pre else []
     stem, dot, ext = uid.rpartition(".")
     if not dot or not stem or not ext:
         stem, ext = uid, ""
         if "." in uid:
-            return "odd-dots"
+            return "+".join(tag0 + ["odd-dots"])
     if ext in ("gz", "bz2", "zip"):
-        return "compressed"
-    tags = []
+        return "+".join(tag0 + ["compressed"])
+    tags = list(tag0)
     if ext and ext != sfx:
         tags.append("foreign-ext")
     if "." in stem:
@@ -306,7 +319,7 @@ def detect_cfg(ctx):
 # --------------------------------------------------------------------------
 # history generators
 # --------------------------------------------------------------------------
-def gen_history(rng, kind, sfx, pool, nmax=40, p_obs=0.25, every_obs=False):
+def gen_history(rng, kind, sfx, pool, nmax=40, p_obs=0.25, every_obs=False, synonyms=True):
     n = rng.randint(1, nmax)
     mode = rng.choice(["w", "w", "a"])
     ids = rng.sample(pool, min(len(pool), rng.randint(2, 6)))
@@ -317,12 +330,17 @@ def gen_history(rng, kind, sfx, pool, nmax=40, p_obs=0.25, every_obs=False):
         uid = rng.choice(ids)
         cnt += 1
         data = f"d{cnt}"
+        # the same record in another spelling: 'results/<id>' (SQLite), a relative path with a directory (directory store)
+        spelled = uid
+        if synonyms and rng.random() < (0.3 if kind == "sql" else 0.08) and (kind == "sql" or "." not in uid):
+            spelled = ("results/" if kind == "sql" else "sub/") + uid
         if r < 0.33:
-            op = ["w", uid, data]
+            op = ["w", spelled, data]
         elif r < 0.62:
-            op = ["nc", uid, data]
+            op = ["nc", spelled, data]
         elif r < 0.70:
-            op = ["log", rng.choice(["run.log", "l2", uid]), data]
+            lg = rng.choice(["run.log", "l2", uid])
+            op = ["log", ("logs/" + lg) if kind == "sql" and synonyms and rng.random() < 0.3 else lg, data]
         elif r < 0.82:
             op = ["drop", uid if rng.random() < 0.75 else ""]
         elif r < 0.93:
@@ -399,11 +417,11 @@ def _py_names(sfx, suffix, uid):
 
 def _names_stream(ctx, out):
     cases = []
-    words = ["a", "b", ".", "fa", "json", "txt", "log", "gz", "_"]
+    words = ["a", "b", ".", "fa", "json", "txt", "log", "gz", "_", "/"]
     for n in range(1, 5):
         for tup in itertools.product(words, repeat=n):
             s = "".join(tup)
-            if s.startswith(".") or s in (".", ".."):
+            if s.startswith(".") or s in (".", "..") or s.startswith("/") or s.endswith("/") or "/." in s:
                 continue
             cases.append(s)
     cases = sorted(set(cases))
@@ -413,7 +431,7 @@ def _names_stream(ctx, out):
         extra += prop_ids(sfx) + odd_ids(sfx) + gz_ids(sfx)
     cases += sorted(set(extra))
     if not ctx.thorough:
-        cases = rng.sample(cases, 1800) + sorted(set(extra))
+        cases = rng.sample(cases, 1300) + sorted(set(extra))
     reqs = []
     for uid in cases:
         for sfx in (["fa"] if len(uid) < 12 and "fasta" not in uid else SFXS):
@@ -448,13 +466,13 @@ def correspondence(ctx):
     cfg = detect_cfg(ctx)
     _names_stream(ctx, out)
     rng = ctx.subrng("corr")
-    n_hist = ctx.budget(300, 9000)
+    n_hist = ctx.budget(180, 4000)
     for kind in ("dir", "sql"):
         hist = []
         for i in range(n_hist if kind == "dir" else n_hist // 2):
             sfx = rng.choice(SFXS) if kind == "dir" else "fasta"
             r = rng.random()
-            pool = prop_ids(sfx) if r < 0.45 else prop_ids(sfx) + odd_ids(sfx) + (gz_ids(sfx) if kind == "dir" and r > 0.9 else [])
+            pool = (prop_ids(sfx) + dot_family(sfx)) if r < 0.45 else prop_ids(sfx) + dot_family(sfx) + odd_ids(sfx) + (gz_ids(sfx) if kind == "dir" and r > 0.9 else [])
             mode, ops = gen_history(rng, kind, sfx, pool)
             hist.append((sfx, mode, ops))
         cmd = "dir" if kind == "dir" else "sql"
@@ -506,10 +524,10 @@ def correspondence(ctx):
     # Lean dictionary spec vs the Python oracle
     srng = ctx.subrng("spec-tie")
     reqs, wants = [], []
-    for i in range(ctx.budget(600, 6000)):
+    for i in range(ctx.budget(250, 4000)):
         kind = srng.choice(["dir", "sql"])
         sfx = srng.choice(SFXS)
-        pool = prop_ids(sfx) + (odd_ids(sfx) if srng.random() < 0.4 else [])
+        pool = prop_ids(sfx) + dot_family(sfx) + (odd_ids(sfx) if srng.random() < 0.4 else [])
         mode, ops = gen_history(srng, kind, sfx, pool)
         reqs.append(("spec", dict(kind=kind, sfx=sfx, mode=mode, ops=ops)))
         o = Oracle(kind, sfx, mode)
@@ -542,8 +560,15 @@ def correspondence(ctx):
 # the dictionary oracle (independent Python statement of the spec)
 # --------------------------------------------------------------------------
 def spec_stem(uid):
+    """identifier without directories and without its final extension"""
+    uid = uid.rsplit("/", 1)[-1]
     i = uid.rfind(".")
     return uid[:i] if 0 < i < len(uid) - 1 else uid
+
+
+def sql_norm(table, uid):
+    """SQLite store: 'results/<id>' is a spelling of '<id>'"""
+    return uid.rsplit("/", 1)[-1] if uid.startswith(table) else uid
 
 
 class Oracle:
@@ -552,13 +577,13 @@ class Oracle:
         self.c, self.nc, self.logs = {}, {}, {}
 
     def cname(self, uid):
-        return f"{spec_stem(uid)}.{self.sfx}" if self.kind == "dir" else uid
+        return f"{spec_stem(uid)}.{self.sfx}" if self.kind == "dir" else sql_norm("results", uid)
 
     def ncname(self, uid):
-        return f"{spec_stem(uid)}.json" if self.kind == "dir" else uid
+        return f"{spec_stem(uid)}.json" if self.kind == "dir" else sql_norm("results", uid)
 
     def logname(self, uid):
-        return f"{spec_stem(uid)}.log" if self.kind == "dir" else uid
+        return f"{spec_stem(uid)}.log" if self.kind == "dir" else sql_norm("logs", uid)
 
     def rejects(self, op):
         k = op[0]
@@ -626,7 +651,7 @@ def _classify(kind, sfx, op, res, before, exp, got, oracle_before):
         lost = sorted(set(en) - set(gn))
         extra = sorted(set(gn) - set(en))
         if lost:
-            own = (NCP if kind == "dir" else "") + (f"{spec_stem(uid)}.json" if kind == "dir" else uid) if t == "nc" else None
+            own = (NCP if kind == "dir" else "") + (f"{spec_stem(uid)}.json" if kind == "dir" else sql_norm("results", uid)) if t == "nc" else None
             if t == "nc" and k in ("w", "drop") and uid and all(x != own for x in lost):
                 # a record of ANOTHER identifier disappeared
                 key = (uid.replace(f".{sfx}", "") + ".json") if kind == "dir" else uid
@@ -804,7 +829,7 @@ def spec_check(ctx, budget):
     atoms = [["w", i] for i in ids] + [["nc", i] for i in ids] + [["drop", i] for i in ["a", "ba", ""]]
     for n in (1, 2, 3):
         for tup in itertools.product(atoms, repeat=n):
-            if n == 3 and budget < 8 and rng.random() < 0.8:
+            if n == 3 and budget < 8 and rng.random() < 0.9:
                 continue
             for mode in ("w", "a"):
                 ops = [[*a, f"d{j}"] if a[0] != "drop" else list(a) for j, a in enumerate(tup)]
@@ -812,10 +837,10 @@ def spec_check(ctx, budget):
                 if n <= 2 or rng.random() < 0.3:
                     cases.append(("sql", "fasta", mode, ops))
     small_n = len(cases)
-    for i in range(130 * budget):
+    for i in range(110 * budget):
         kind = "dir" if rng.random() < 0.65 else "sql"
         sfx = rng.choice(SFXS) if kind == "dir" else "fasta"
-        pool = prop_ids(sfx) + (spec_odd_ids(sfx) if rng.random() < 0.25 else [])
+        pool = prop_ids(sfx) + (dot_family(sfx) if rng.random() < 0.5 else []) + (spec_odd_ids(sfx) if rng.random() < 0.25 else [])
         mode, ops = gen_history(rng, kind, sfx, pool, nmax=40 if i % 3 else 12)
         cases.append((kind, sfx, mode, [op for op in ops if op[0] != "obs"]))
     seen_sigs = {}
@@ -864,7 +889,143 @@ def spec_check(ctx, budget):
         if f2 and f2["sig"] == sig:
             f = f2
         add_failure(out, "spec", f["what"], f["input"], f["expected"], f["got"], confirmed=True, sig=sig)
+    _io_stream(ctx, out, budget)
     return out
+
+
+# --------------------------------------------------------------------------
+# records written THROUGH the writer apps of app/io.py
+# --------------------------------------------------------------------------
+def _io_objects():
+    """{writer: [(label, object, falsy?)]}: valid completed results, several of them falsy, for each writer app"""
+    import cogent3
+    from cogent3.util.table import Table
+
+    aln = cogent3.make_aligned_seqs({"s1": "ACGT", "s2": "AC-T"}, moltype="dna")
+    aln0 = cogent3.make_aligned_seqs({"s1": "", "s2": ""}, moltype="dna")  # zero-length alignment: bool() is False
+    seqs = cogent3.make_unaligned_seqs({"s1": "ACGT", "s2": "ACT"}, moltype="dna")
+    tab = Table(header=["a", "b"], data=[[1, 2], [3, 4]])
+    tab0 = Table(header=["a", "b"], data=[])  # header, zero rows: bool() is False
+    prim = [("dict", {"k": [1, 2]}), ("empty-dict", {}), ("empty-list", []), ("zero", 0), ("empty-str", ""), ("table", tab),
+            ("empty-table", tab0), ("alignment", aln), ("empty-alignment", aln0)]
+    return {
+        "write_json": prim,
+        "write_db": prim,
+        "write_seqs": [("alignment", aln), ("collection", seqs), ("empty-alignment", aln0)],
+        "write_tabular": [("table", tab), ("empty-table", tab0)],
+    }
+
+
+def io_case(ctx, writer, store, mode, plan, tag="io"):
+    """plan: [(identifier, label | 'NotCompleted')]; each record is written by `writer.main(data=..., identifier=...)`
+    (the call apply_to makes).  Returns failure dict | None."""
+    from cogent3.app import io as io_app
+    from cogent3.app.composable import NotCompleted
+    from cogent3.app.data_store import DataStoreDirectory
+    from cogent3.app.sqlite_data_store import DataStoreSqlite
+
+    sfx = {"write_json": "json", "write_seqs": "fasta", "write_tabular": "tsv", "write_db": "json"}[writer]
+    path = ctx.scratch / f"{tag}_{writer}_{store}"
+    objs = dict(_io_objects()[writer])
+    if store == "dir":
+        shutil.rmtree(path, ignore_errors=True)
+        ds = DataStoreDirectory(path, mode=mode, suffix=sfx)
+    else:
+        for q in (str(path), str(path) + ".sqlitedb"):
+            if os.path.exists(q):
+                os.remove(q)
+        ds = DataStoreSqlite(path, mode=mode)
+    inp = dict(stream="io", writer=writer, store=store, mode=mode, plan=[list(p) for p in plan])
+    try:
+        app = getattr(io_app, writer)(data_store=ds)
+        want_c, want_nc = {}, {}
+        for ident, label in plan:
+            if label == "NotCompleted":
+                obj = NotCompleted("ERROR", "c13-harness", f"failed {ident}", source=ident)
+                # write_json / write_seqs / write_tabular hand '<identifier>.json' to write_not_completed, write_db the identifier
+                want_nc[(f"{NCP}{ident}.json" if store == "dir" else (ident if writer == "write_db" else f"{ident}.json"))] = label
+            else:
+                obj = objs[label]
+                want_c[(f"{ident}.{sfx}" if store == "dir" else ident)] = label
+            try:
+                app.main(data=obj, identifier=ident)
+            except Exception as e:  # noqa: BLE001
+                return dict(what=f"{writer}.main raised {type(e).__name__} for a valid {label} result", input=dict(inp, at=ident),
+                            expected="record stored", got=repr(e)[:200], sig=f"io:{writer}:{store}:raised-{type(e).__name__}:{label}")
+        for where, d in (("same store object", ds), ("freshly re-opened store", None)):
+            if d is None:
+                if store == "sql":
+                    db = getattr(ds, "_db", None)
+                    if db is not None:
+                        db.close()
+                d = DataStoreDirectory(path, mode="r", suffix=sfx) if store == "dir" else DataStoreSqlite(path, mode="r")
+            got_c = sorted(m.unique_id for m in d.completed)
+            got_nc = sorted(m.unique_id for m in d.not_completed)
+            if got_c != sorted(want_c) or got_nc != sorted(want_nc):
+                wrong = sorted((set(got_nc) - set(want_nc)) | (set(want_c) - set(got_c)))
+                labels = sorted({lab for k, lab in want_c.items() if k not in got_c})
+                cls = "completed-stored-as-not-completed" if labels and set(got_nc) - set(want_nc) else "membership"
+                return dict(what=f"records written through {writer} ({where}): completed / not_completed membership differs from the dictionary",
+                            input=inp, expected=dict(c=sorted(want_c), nc=sorted(want_nc)), got=dict(c=got_c, nc=got_nc),
+                            sig=f"io:{writer}:{store}:{cls}:{'+'.join(labels) or 'other'}")
+            for m in list(d.completed) + list(d.not_completed):
+                content = m.read()
+                md5 = d.md5(m.unique_id)
+                ok = content is not None and len(content) > 0 and md5 == (md5hex(content) if isinstance(content, str) else hashlib.md5(content).hexdigest())
+                if not ok:
+                    return dict(what=f"record {m.unique_id} written through {writer} ({where}) has no content or a wrong md5", input=inp,
+                                expected="content with matching md5", got=dict(content=repr(content)[:80], md5=md5), sig=f"io:{writer}:{store}:content-md5")
+            if store == "sql" and d is not ds:
+                db = getattr(d, "_db", None)
+                if db is not None:
+                    db.close()
+    finally:
+        if store == "sql":
+            db = getattr(ds, "_db", None)
+            if db is not None:
+                db.close()
+            for q in (str(path), str(path) + ".sqlitedb"):
+                if os.path.exists(q):
+                    os.remove(q)
+        else:
+            shutil.rmtree(path, ignore_errors=True)
+    return None
+
+
+def _io_stream(ctx, out, budget):
+    rng = ctx.subrng(f"io{budget}")
+    objs = _io_objects()
+    # identifiers none of which is a suffix of another (the io stream is about the writers, not about C13-drop-suffix-match)
+    ids = [f"rec{i}x" for i in range(1, 9)]
+    cases = []
+    for writer, lst in objs.items():
+        for store in (("sql",) if writer == "write_db" else ("dir", "sql")):
+            # every object kind once + a genuine NotCompleted, in both writable modes
+            for mode in ("w", "a"):
+                plan = [(ids[i % len(ids)] + (str(i) if i >= len(ids) else ""), lab) for i, (lab, _) in enumerate(lst)]
+                plan.append(("failed1", "NotCompleted"))
+                rng.shuffle(plan)
+                cases.append((writer, store, mode, plan))
+            for _ in range(budget):
+                n = rng.randint(1, 6)
+                chosen = rng.sample(ids, n)
+                plan = [(i, "NotCompleted" if rng.random() < 0.35 else rng.choice(lst)[0]) for i in chosen]
+                cases.append((writer, store, rng.choice(["w", "a"]), plan))
+    seen = set()
+    for k, (writer, store, mode, plan) in enumerate(cases):
+        f = io_case(ctx, writer, store, mode, plan, tag=f"io{k}")
+        out["evaluations"] += 1
+        bump(out, "io_writer", f"{writer}:{store}")
+        for _, lab in plan:
+            bump(out, "io_objects", lab)
+        if len(plan) >= 2:
+            out["nontrivial"].add(("io", writer, store, mode, str(plan)))
+        if f is not None and f["sig"] not in seen:
+            seen.add(f["sig"])
+            add_failure(out, "spec", f["what"], f["input"], f["expected"], f["got"], confirmed=True, sig=f["sig"])
+    if len(out["samples"]) < 6 and cases:
+        w, st, m, pl = cases[0]
+        out["samples"].append(dict(stream="io", writer=w, store=st, mode=m, plan=pl, agrees_with_dictionary=True))
 
 
 # --------------------------------------------------------------------------
@@ -902,6 +1063,13 @@ def match_finding(f, k):
 
 
 def check_witness(ctx, w):
+    if w.get("stream") == "io":
+        f = io_case(ctx, w["writer"], w["store"], w["mode"], [tuple(p) for p in w["plan"]], tag="witness")
+        if f is None:
+            return None
+        out = new_outcome()
+        add_failure(out, "spec", f["what"], f["input"], f["expected"], f["got"], confirmed=True, sig=f["sig"])
+        return out["failures"][0]
     ops = [op for op in w["ops"] if op[0] != "obs"]
     f, _ = check_history(ctx, w["store"], w["sfx"], w["mode"], _with_obs(ops), tag="witness")
     if f is None:
@@ -914,6 +1082,11 @@ def check_witness(ctx, w):
 def replay(ctx, data):
     f = data.get("failing_input") or {}
     inp = f.get("input")
+    if inp and inp.get("stream") == "io":
+        g = io_case(ctx, inp["writer"], inp["store"], inp["mode"], [tuple(p) for p in inp["plan"]], tag="replay")
+        if g:
+            print("signature:", g["sig"], "expected:", g["expected"], "got:", g["got"])
+        return g is not None
     if not inp or "ops" not in inp:
         return False
     ops = [op for op in inp["ops"] if op[0] != "obs"]
